@@ -1270,7 +1270,7 @@ def k_gasres_np():
 def k_gasres_nb():
     return [translate(RE_X, "get_pressures_numba", {"node_pit": "npit", "from_nodes": "from", "to_nodes": "to"},
                       name="gaspress_nb"),
-            translate(RE_X, "get_gas_vel_numba", {"node_pit": "npit", "branch_pit": "bpit"}, name="gasvel_nb")]
+            translate(RE_X, "get_gas_vel_numba", {"branch_pit": "bpit"}, name="gasvel_nb")]
 
 
 def k_basic(gas):
